@@ -366,6 +366,11 @@ pub struct Exec {
     /// capacities of buffers returned to the pool (statistics only)
     pub returned_caps: Vec<usize>,
     pub completions: usize,
+    /// reach measures (statistics only)
+    stream_numbers: std::collections::BTreeMap<Key, u32>,
+    pub interleaving: Digest,
+    pub arrival_orders: Vec<u64>,
+    pub abstract_states: Vec<u64>,
 }
 
 fn err_name(e: &IpDefragError) -> &'static str {
@@ -419,6 +424,10 @@ impl Exec {
             steps: 0,
             returned_caps: Vec::new(),
             completions: 0,
+            stream_numbers: Default::default(),
+            interleaving: Digest::new(),
+            arrival_orders: Vec::new(),
+            abstract_states: Vec::new(),
         }
     }
 
@@ -597,6 +606,13 @@ impl Exec {
                     };
                 }
                 info.key = Some(d.key.clone());
+                {
+                    // cross-stream interleaving signature: sequence of stream
+                    // numbers (by first appearance) over the deliveries
+                    let n = self.stream_numbers.len() as u32;
+                    let id = *self.stream_numbers.entry(d.key.clone()).or_insert(n);
+                    self.interleaving.u64(u64::from(id));
+                }
                 if !self.model.exists(&d.key) {
                     info.sibling_dim = sibling_dimension(&self.model, &d.key);
                 }
@@ -696,6 +712,9 @@ impl Exec {
                         }
                         self.log.str("complete");
                         self.log.bytes(&p.payload);
+                        if self.arrival_orders.len() < 64 {
+                            self.arrival_orders.push(s.arrival_signature());
+                        }
                         info.completed = Some((d.key.clone(), end));
                         info.completed_by_non_last = d.more;
                         info.completed_by_overlap = di.overlapped_existing;
@@ -721,6 +740,9 @@ impl Exec {
                     }
                 }
                 self.check_stream_count("a delivery")?;
+                if self.steps % 16 == 0 && self.abstract_states.len() < 64 {
+                    self.abstract_states.push(self.model.abstract_state());
+                }
             }
             Op::Evict { ts } => {
                 info.kind = "evict";
